@@ -20,11 +20,11 @@ pub fn get() -> FunctionDefinitions {
                 )
                 {
                     if let Ok(index) = TryInto::<usize>::try_into(index) {
-                        if str.len() < index {
+                        if str.chars().count() < index {
                             Some(str.into())
                         } else {
-                            let head = str[index..].to_string();
-                            Some(head.into())
+                            let tail: String = str.chars().skip(index).collect();
+                            Some(tail.into())
                         }
                     } else {
                         None
